@@ -265,9 +265,13 @@ theorem runQ_drainMono (fuel : Nat) (w : W) : DrainMono w (W.runQ fuel w) := by
     | some w' => simp only; exact (loopStep_drainMono w w' hl).trans (ih w')
     | none =>
       simp only
+      have hs : DrainMono w (W.tryFinishStop { w with env := w.env.settle }) := by
+        refine DrainMono.of_eq ?_
+        unfold W.tryFinishStop
+        split <;> rfl
       split
-      · exact DrainMono.of_eq rfl
-      · exact (DrainMono.of_eq rfl : DrainMono w { w with env := w.env.settle }).trans (ih _)
+      · exact hs
+      · exact hs.trans (ih _)
 
 theorem send_drain (w : W) (m : FMsg) : (w.send m).drain = w.drain := by
   unfold W.send; split <;> rfl
@@ -366,5 +370,26 @@ theorem runSteps_drainMono (w : W) (steps : List Step) : DrainMono w (w.runSteps
   induction steps generalizing w with
   | nil => exact DrainMono.refl w
   | cons s rest ih => exact (stepOp_drainMono w s.op s.t0 s.tq s.te).trans (ih _)
+
+end Factory
+
+namespace Factory
+
+theorem dropMsg_log (e : Env) (m : FMsg) : ∃ rest, (e.dropMsg m).log = e.log ++ rest := by
+  cases m with
+  | dispatch j =>
+    show ∃ rest, (if j.port then (e.emit (.dropped j.id)).emit (.portClosed j.id) else e.emit (.dropped j.id)).log = _
+    cases j.port
+    · exact ⟨[Ev.dropped j.id], by simp [Env.emit]⟩
+    · exact ⟨[Ev.dropped j.id, Ev.portClosed j.id], by simp [Env.emit]⟩
+  | _ => exact ⟨[], by simp [Env.dropMsg]⟩
+
+theorem foldl_dropMsg_log (inbox : List FMsg) (e : Env) : ∃ rest, (inbox.foldl Env.dropMsg e).log = e.log ++ rest := by
+  induction inbox generalizing e with
+  | nil => exact ⟨[], by simp⟩
+  | cons m ms ih =>
+    obtain ⟨r1, h1⟩ := dropMsg_log e m
+    obtain ⟨r2, h2⟩ := ih (e.dropMsg m)
+    exact ⟨r1 ++ r2, by rw [List.foldl_cons, h2, h1, List.append_assoc]⟩
 
 end Factory
